@@ -187,6 +187,7 @@ type nodeCfg struct {
 	keyType  int
 	noTracer bool
 	tee      func(mem EventTracer) EventTracer
+	afterHostStart func(h *simHost) // e.g. extra identities for the peerstore
 }
 
 // nodeOffset returns the sub-microsecond residue reserved for periodic timers of node idx.
@@ -209,6 +210,9 @@ func (s *sim) newNode(name string, priv crypto.PrivKey, cfg nodeCfg) (*simNode, 
 	}
 	h := s.newHost(name, priv, ip)
 	h.start()
+	if cfg.afterHostStart != nil {
+		cfg.afterHostStart(h)
+	}
 	n := &simNode{s: s, h: h, name: name, router: cfg.router, topics: map[string]*Topic{}, relays: map[string][]RelayCancelFunc{}, created: s.now()}
 	n.ctx, n.cancel = context.WithCancel(context.Background())
 	opts := []Option{WithLogger(discardLogger), WithRPCLogger(discardLogger)}
